@@ -246,3 +246,21 @@ package field
 //@   ensures pw: wf(z) && fv(z) == fpow(old(fv(x)), (P - 3) / 4)
 //@   modifies *z
 //@   returns z
+
+// ---- sqrt_ratio_3mod4 (RFC 9380 F.2.1.2), Z = -11, c1 = (P-3)/4, c2 = sqrt(-Z) ----
+//@ const C2 = 0x31fdf302724013e57ad13fb38f842afeec184f00a74789dd286729c8303c4a59
+//@ const ZC = 0xfffffffffffffffffffffffffffffffffffffffffffffffffffffffefffffc24
+//@ define sr_tv1(u, v) = fmul(fmul(v, v), fmul(u, v))
+//@ define sr_y1(u, v) = fmul(fpow(sr_tv1(u, v), (P - 3) / 4), fmul(u, v))
+//@ define sr_isqr(u, v) = fmul(fmul(sr_y1(u, v), sr_y1(u, v)), v) == u
+//@ define sr_y(u, v) = ite(sr_isqr(u, v), sr_y1(u, v), fmul(sr_y1(u, v), F(C2)))
+//@ lemma sqrt_ratio_one(u) {lean: Secp.sqrt_ratio_one}: (sr_isqr(u, F(1)) == issq(u)) && imp(sr_isqr(u, F(1)), fmul(sr_y(u, F(1)), sr_y(u, F(1))) == u)
+
+//@ func Element.SqrtRatio
+//@   mode ring
+//@   requires wf(u) && wf(v)
+//@   ensures wf: wf(e)
+//@   ensures y: fv(e) == sr_y(old(fv(u)), old(fv(v)))
+//@   ensures flag: result1 == ite(sr_isqr(old(fv(u)), old(fv(v))), 1, 0)
+//@   modifies *e
+//@   returns e
